@@ -671,8 +671,9 @@ def run_case(ctx, i, rng):
                 f'expected {short(want.get(k), 60)}',
                 {'items': [list(x) for x in accepted],
                  'override': override_src})
-    ctx.sample({
-        'items': [[k, s[:120], ch] for k, s, ch in accepted],
-        'restart_override': override_src,
-        'restored': {k: short(v, 120) for k, v in got2.items()},
-    })
+    if nontrivial and i >= ncases(ctx.tier) // 8:
+        ctx.sample({
+            'items': [[k, s[:120], ch] for k, s, ch in accepted],
+            'restart_override': override_src,
+            'restored': {k: short(v, 120) for k, v in got2.items()},
+        })
